@@ -35,6 +35,84 @@ import (
 // the concrete type T<n> and by a second object type X<n> that never matches) or as a union
 // U<n> = X<n> | T<n>; the field that returns them has the abstract type.
 
+// selNode is a selection of the document: what is printed, and what the model's collectFields
+// (lean/ApiFu/C02/Collect.lean) is told about it.
+type selNode struct {
+	kind    string // field | inline | spread
+	key     string // field: response key
+	name    string // field: field name
+	alias   bool   // field: print `key:name`
+	dirs    string // directives, as printed
+	skip    bool   // some directive filters the selection out
+	cond    string // inline / fragment definition: type condition ("" = none)
+	applies bool   // the type condition holds for the concrete object type
+	frag    string // spread: fragment name
+	hasSub  bool   // field: has a selection set
+	body    []*selNode
+}
+
+func (n *selNode) text(b *strings.Builder) {
+	switch n.kind {
+	case "field":
+		if n.alias {
+			b.WriteString(n.key + ":")
+		}
+		b.WriteString(n.name + n.dirs)
+		if n.hasSub {
+			nodesText(b, n.body)
+		}
+	case "inline":
+		b.WriteString("...")
+		if n.cond != "" {
+			b.WriteString(" on " + n.cond)
+		}
+		b.WriteString(n.dirs)
+		nodesText(b, n.body)
+	case "spread":
+		b.WriteString("..." + n.frag + n.dirs)
+	}
+}
+
+func nodesText(b *strings.Builder, ns []*selNode) {
+	b.WriteString("{")
+	for i, n := range ns {
+		if i > 0 {
+			b.WriteString(" ")
+		}
+		n.text(b)
+	}
+	b.WriteString("}")
+}
+
+// fragDefs lists the fragment definitions the spreads refer to (each name once, in order of first
+// occurrence, nested ones after the fragment that spreads them).
+func fragDefs(ns []*selNode, seen map[string]bool, out *[]string) {
+	for _, n := range ns {
+		if n.kind == "spread" && !seen[n.frag] {
+			seen[n.frag] = true
+			var b strings.Builder
+			b.WriteString("fragment " + n.frag + " on " + n.cond)
+			nodesText(&b, n.body)
+			*out = append(*out, b.String())
+		}
+		fragDefs(n.body, seen, out)
+	}
+}
+
+func nodeSexp(n *selNode) hx.Sexp {
+	var body []hx.Sexp
+	for _, c := range n.body {
+		body = append(body, nodeSexp(c))
+	}
+	switch n.kind {
+	case "field":
+		return hx.N("f", hx.A(n.key), hx.A(n.name), hx.B(n.skip), hx.L(body...))
+	case "inline":
+		return hx.N("inl", hx.B(n.skip), hx.B(n.applies), hx.L(body...))
+	}
+	return hx.N("spr", hx.B(n.skip), hx.A(n.frag), hx.B(n.applies), hx.L(body...))
+}
+
 type synItem struct {
 	idx int  // field index in the object shape
 	dup bool // not the first occurrence of its key in the merged selection set
@@ -48,9 +126,8 @@ type synAtom struct {
 }
 
 type synth struct {
-	r     *hx.Rand
-	frags []string
-	n     int
+	r *hx.Rand
+	n int
 }
 
 func unwrapList(t *TShape) *TShape {
@@ -103,40 +180,34 @@ func vanishDirective(kind string) string {
 	return " @include(if: false)"
 }
 
-// fieldText renders one occurrence.
-func (s *synth) fieldText(t *TShape, a synAtom) string {
-	f := t.Fields[a.idx]
-	var b strings.Builder
-	switch {
-	case a.alias != "":
-		b.WriteString(a.alias + ":")
-	case f.Alias != "":
-		b.WriteString(f.Alias + ":")
-	}
-	if f.Typename {
-		b.WriteString("__typename")
-	} else {
-		b.WriteString(f.Name)
-	}
-	if a.vanish != "" {
-		b.WriteString(vanishDirective(a.vanish))
-	} else {
-		b.WriteString(s.keptDirective())
-	}
-	if ot := unwrapList(f.T); !f.Typename && ot != nil && ot.Kind == "object" {
-		b.WriteString(s.selSet(ot, a.sub))
-	}
-	return b.String()
+func isObjField(f *FShape) bool {
+	ot := unwrapList(f.T)
+	return !f.Typename && ot != nil && ot.Kind == "object"
 }
 
-// selSet renders a selection set on a position whose concrete object shape is t (static type: the
-// object type, or the interface / union t.Abstract names) that collects to exactly `items`.
-func (s *synth) selSet(t *TShape, items []synItem) string {
-	isObj := func(i int) bool {
-		f := t.Fields[i]
-		ot := unwrapList(f.T)
-		return !f.Typename && ot != nil && ot.Kind == "object"
+// fieldNode builds one occurrence.
+func (s *synth) fieldNode(t *TShape, a synAtom) *selNode {
+	f := t.Fields[a.idx]
+	n := &selNode{kind: "field", key: f.Key(), name: f.Name, alias: f.Alias != ""}
+	if a.alias != "" {
+		n.key, n.alias = a.alias, true
 	}
+	if a.vanish != "" {
+		n.dirs, n.skip = vanishDirective(a.vanish), true
+	} else {
+		n.dirs = s.keptDirective()
+	}
+	if isObjField(f) {
+		n.hasSub = true
+		n.body = s.selSet(unwrapList(f.T), a.sub)
+	}
+	return n
+}
+
+// selSet builds a selection set on a position whose concrete object shape is t (static type: the
+// object type, or the interface / union t.Abstract names) that collects to exactly `items`.
+func (s *synth) selSet(t *TShape, items []synItem) []*selNode {
+	isObj := func(i int) bool { return isObjField(t.Fields[i]) }
 	var atoms []synAtom
 	type late struct {
 		after int // index in atoms of the first occurrence
@@ -214,51 +285,55 @@ func (s *synth) selSet(t *TShape, items []synItem) string {
 		pos := s.r.Intn(len(atoms) + 1)
 		atoms = append(atoms[:pos], append([]synAtom{a}, atoms[pos:]...)...)
 	}
-	sels := make([]string, len(atoms))
+	sels := make([]*selNode, len(atoms))
 	bare := make([]bool, len(atoms)) // may stand directly in a union-typed selection set
 	for i, a := range atoms {
-		sels[i] = s.fieldText(t, a)
+		sels[i] = s.fieldNode(t, a)
 		bare[i] = t.Fields[a.idx].Typename
 	}
 	num := typeNum(t)
-	conds := []string{"", " on T" + num, " on T" + num}
+	conds := []string{"", "T" + num, "T" + num}
 	switch t.Abstract {
 	case "iface":
-		conds = append(conds, " on I"+num)
+		conds = append(conds, "I"+num)
 	case "union":
-		conds = append(conds, " on U"+num)
+		conds = append(conds, "U"+num)
 	}
 	wrap := func(lo, hi int, forceType bool) {
-		body := "{" + strings.Join(sels[lo:hi], " ") + "}"
+		body := append([]*selNode{}, sels[lo:hi]...)
 		cond := hx.Pick(s.r, conds)
 		if forceType {
-			cond = " on T" + num
+			cond = "T" + num
 		}
-		if strings.HasPrefix(cond, " on U") {
+		if strings.HasPrefix(cond, "U") {
 			// a union has no fields: only type-conditioned selections and __typename may stand in it
 			for _, ok := range bare[lo:hi] {
 				if !ok {
-					cond = " on T" + num
+					cond = "T" + num
 				}
 			}
 		}
-		var text string
+		var repl []*selNode
 		if s.r.Chance(1, 3) {
 			if cond == "" {
-				cond = " on T" + num
+				cond = "T" + num
 			}
 			s.n++
 			name := "F" + strconv.Itoa(s.n)
-			s.frags = append(s.frags, "fragment "+name+cond+body)
-			text = "..." + name + s.keptDirective()
+			repl = append(repl, &selNode{kind: "spread", frag: name, cond: cond, applies: true, dirs: s.keptDirective(), body: body})
 			if s.r.Chance(1, 5) {
-				text += " ..." + name // a second spread of a visited fragment collects nothing
+				// a second spread of a visited fragment collects nothing
+				repl = append(repl, &selNode{kind: "spread", frag: name, cond: cond, applies: true, body: body})
 			}
 		} else {
-			text = "..." + cond + s.keptDirective() + body
+			repl = append(repl, &selNode{kind: "inline", cond: cond, applies: true, dirs: s.keptDirective(), body: body})
 		}
-		sels = append(sels[:lo], append([]string{text}, sels[hi:]...)...)
-		bare = append(bare[:lo], append([]bool{cond != ""}, bare[hi:]...)...)
+		rb := make([]bool, len(repl))
+		for i := range rb {
+			rb[i] = cond != "" || repl[i].kind == "spread"
+		}
+		sels = append(sels[:lo], append(repl, sels[hi:]...)...)
+		bare = append(bare[:lo], append(rb, bare[hi:]...)...)
 	}
 	for n := s.r.Intn(4); n > 0 && len(sels) > 0; n-- {
 		lo := s.r.Intn(len(sels))
@@ -283,67 +358,65 @@ func (s *synth) selSet(t *TShape, items []synItem) string {
 		// fragments that do not apply to the concrete type
 		for n := s.r.Intn(2); n > 0; n-- {
 			sub := s.randomSub(t)
-			var parts []string
+			var parts []*selNode
 			for _, it := range sub {
 				a := synAtom{idx: it.idx}
 				if isObj(it.idx) {
 					a.sub = s.randomSub(unwrapList(t.Fields[it.idx].T))
 				}
-				parts = append(parts, s.fieldText(t, a))
+				parts = append(parts, s.fieldNode(t, a))
 			}
-			text := "... on X" + num + "{" + strings.Join(parts, " ") + "}"
+			x := &selNode{kind: "inline", cond: "X" + num, applies: false, body: parts}
 			pos := s.r.Intn(len(sels) + 1)
-			sels = append(sels[:pos], append([]string{text}, sels[pos:]...)...)
+			sels = append(sels[:pos], append([]*selNode{x}, sels[pos:]...)...)
 			bare = append(bare[:pos], append([]bool{true}, bare[pos:]...)...)
 		}
 	}
-	return "{" + strings.Join(sels, " ") + "}"
+	return sels
 }
 
 // plainSet is the presentation for Syntax == 0.
-func plainSet(b *strings.Builder, t *TShape) {
+func plainSet(t *TShape) []*selNode {
 	t = unwrapList(t)
 	if t == nil || t.Kind != "object" {
-		return
+		return nil
 	}
-	b.WriteString("{")
-	if t.Abstract == "union" {
-		b.WriteString("... on " + t.TypeName + "{")
-	}
-	for i, f := range t.Fields {
-		if i > 0 {
-			b.WriteString(" ")
+	var out []*selNode
+	for _, f := range t.Fields {
+		n := &selNode{kind: "field", key: f.Key(), name: f.Name, alias: f.Alias != ""}
+		if isObjField(f) {
+			n.hasSub = true
+			n.body = plainSet(f.T)
 		}
-		if f.Alias != "" {
-			b.WriteString(f.Alias + ":")
-		}
-		if f.Typename {
-			b.WriteString("__typename")
-			continue
-		}
-		b.WriteString(f.Name)
-		plainSet(b, f.T)
+		out = append(out, n)
 	}
 	if t.Abstract == "union" {
-		b.WriteString("}")
+		return []*selNode{{kind: "inline", cond: t.TypeName, applies: true, body: out}}
 	}
-	b.WriteString("}")
+	return out
+}
+
+// Selections builds the root selection set of the document.
+func (c *Case) Selections() []*selNode {
+	AssignTypeNames(c.Shape)
+	if c.Syntax == 0 {
+		return plainSet(c.Shape)
+	}
+	s := &synth{r: hx.NewRand(c.Syntax)}
+	return s.selSet(c.Shape, allItems(c.Shape, false))
 }
 
 // Document prints the operation text.
 func (c *Case) Document() string {
-	AssignTypeNames(c.Shape)
+	sels := c.Selections()
 	var b strings.Builder
 	if c.Mutation {
 		b.WriteString("mutation ")
 	}
-	if c.Syntax == 0 {
-		plainSet(&b, c.Shape)
-		return b.String()
-	}
-	s := &synth{r: hx.NewRand(c.Syntax)}
-	b.WriteString(s.selSet(c.Shape, allItems(c.Shape, false)))
-	for _, f := range s.frags {
+	nodesText(&b, sels)
+	var defs []string
+	fragDefs(sels, map[string]bool{}, &defs)
+	for _, f := range defs {
 		b.WriteString(" " + f)
 	}
 	return b.String()
